@@ -167,8 +167,15 @@ def varPickRandom (A : Arr) (x : Nat) (coin : Bool) : Arr :=
 def varPick (A : Arr) (x : Nat) : Arr :=
   applyWithFlip A (varSelect A x false) Gen.and_not_ none (some x) none
 
-/-- `sorted`: `variables.sort()` — ascending, duplicates are KEPT -/
-def sortedVars (vars : List Nat) : List Nat := vars.mergeSort (fun a b => decide (a ≤ b))
+/-- `Vec::dedup`: consecutive repeated elements are removed (the first of a run is kept) -/
+def dedupAdj : List Nat → List Nat
+  | [] => []
+  | [a] => [a]
+  | a :: b :: t => if a = b then dedupAdj (b :: t) else a :: dedupAdj (b :: t)
+
+/-- `sorted`: `variables.sort(); variables.dedup()` — ascending, and (since the fix of `sorted`) without
+    repetitions -/
+def sortedVars (vars : List Nat) : List Nat := dedupAdj (vars.mergeSort (fun a b => decide (a ≤ b)))
 
 /-- `r_pick` of `pick`; the variable list is given LAST VARIABLE FIRST (`split_last` of the sorted slice
     is the head of the reversed list) -/
@@ -196,8 +203,8 @@ def rPickRandom : Arr → List Nat → List Bool → Arr × List Bool
 def pickRandom (A : Arr) (vars : List Nat) (flips : List Bool) : Arr :=
   (rPickRandom A (sortedVars vars).reverse flips).1
 
-/-- number of coins `pick_random` draws -/
-def pickRandomDraws (vars : List Nat) : Nat := vars.length
+/-- number of coins `pick_random` draws: one per DISTINCT variable -/
+def pickRandomDraws (vars : List Nat) : Nat := (sortedVars vars).length
 
 /-! ### the reachable panics: `check_flip_bounds` -/
 
